@@ -76,6 +76,13 @@ def more_jobs(seed=0):
                  loops={"rnx_rotate_f64": {"count": 4, "loops": rot_loops(lambda t: rrotbits(t), lhs=bits("res", "G"))}},
                  cbmc_flags=NOOVF, functions=["rnx_rotate_f64"], solver="race", timeout=900,
                  replay={"driver": "rot", "fn": "rnx_rotate_f64"}))
+    # rnx_mul_xp_minus_one: S1 with an IEEE subtraction in the invariant timed out (900 s, both back ends) -> S4, every residue
+    for nn in (2, 4, 8, 16):
+        for pv in list(range(0, 2 * nn)) + [-1, -(2 * nn), 2 * nn, 4 * nn + 1, (1 << 62) + 3, -(1 << 62) - 3]:
+            J.append(Job(name="rot.rnx_mul_xp_minus_one.nn%d.p%s" % (nn, str(pv).replace("-", "m")), props=["C09"], shape="S4", sources=SRC,
+                         harness="rot_inplace.c", entry="h_rnx_mul_xp_spec", no_dfcc=True, defines={"NN": nn, "PVAL": "(%dLL)" % pv},
+                         cbmc_flags=NOOVF + ["--unwind", str(nn + 2), "--unwinding-assertions"], functions=["rnx_mul_xp_minus_one"],
+                         timeout=300, bound_note="nn=%d, p=%d (every residue mod 2nn enumerated), all data" % (nn, pv)))
     for nn in (2, 4, 8, 16, 32, 64):
         for fn, c, dbl in (("znx_automorphism_i64", "znx_automorphism__c", False), ("rnx_automorphism_f64", "rnx_automorphism__c", True)):
             J.append(Job(name="rot.%s.nn%d" % (fn, nn), props=["C09", "C11", "C18"] + (["C08", "C15"] if not dbl else []),
